@@ -226,6 +226,9 @@ def check_cli(ctx):
             where = "locus %s, sample %s, --mcmc-burn %d" % (vr["id"], s, burn)
             if len(gt) != rec["ploidy"]:
                 fail(ctx, "cli_report", "GT %s has %d alleles for ploidy %d (%s)" % (fld["GT"], len(gt), rec["ploidy"], where), kind="cli")
+            # chain incongruence (printed MCI) is a functional of the RETAINED steps of each chain (default threshold 0.60)
+            if "MCI" in fld and fld["MCI"] not in (".", ""):
+                judge_assemble_incongruence(ctx, lambda thr_: int(fld["MCI"]), chains, burn, support_of, rec["ploidy"], 0.60, where=" [printed MCI; %s]" % where)
             if "." in gt:
                 # a haplotype below --haplotype-posterior-threshold is printed as a null allele: the genotype is not fully spelled
                 ctx.counters.inc("cli_null_alleles")
@@ -391,6 +394,30 @@ def run_allele_walk(ctx):
     check_alleles_trace(ctx, "call", trace, chains, pl, na, steps, cfg["chains"], cfg["threshold"], burns=burns)
 
 
+def judge_assemble_incongruence(ctx, flag_of, chains, burn, support_of, pl, thr, where=""):
+    """Compares the assemble chain-incongruence flag with the documented functional of the per-chain empirical distributions of the
+    retained steps.  flag_of(threshold) -> the flag under test."""
+    want, sups = expected_incongruence(chains, burn, support_of, pl, thr)
+    if want is None:
+        ctx.counters.inc("incongruence_tie_skip")
+        return
+    gotf = flag_of(thr)
+    ctx.counters.inc("incongruence_checked")
+    if want:
+        ctx.counters.inc("incongruence_%d" % want)
+        ctx.counters.inc("chains_disagree")
+    if gotf != want:
+        # what the flag would be if 'ploidy' were the number of distinct haplotypes in the first qualifying chain's support
+        alleles = set()
+        for s_ in sups:
+            alleles |= set(s_)
+        alt = 0 if len(set(sups)) <= 1 else (2 if len(alleles) > len(sups[0]) else 1)
+        fail(ctx, "incongruence_flag",
+             "assemble replicate_incongruence=%r, documented functional of the per-chain empirical distributions gives %r (ploidy %d, %d distinct haplotypes over qualifying chains)%s" % (gotf, want, pl, len(alleles), where),
+             kind="assemble", got=gotf, expected=want, burn=burn, ploidy=pl, supports=[list(s_) for s_ in sups],
+             explained_by=("ploidy_taken_as_distinct_haplotypes_of_first_chain" if gotf == alt else None))
+
+
 def check_assemble_trace(ctx, cfg, trace, chains):
     np = bootstrap()["np"]
     pl = cfg["ploidy"]
@@ -467,26 +494,7 @@ def check_assemble_trace(ctx, cfg, trace, chains):
         if any(not close(d, f * pl) for d, f in zip(dos, freqs)):
             fail(ctx, "allele_frequency_mismatch", "dosage=True is not frequency x ploidy", burn=burn)
         # incongruence
-        thr = cfg["threshold"]
-        want, sups = expected_incongruence(chains, burn, support_of, pl, thr)
-        if want is None:
-            ctx.counters.inc("incongruence_tie_skip")
-        else:
-            gotf = tb.replicate_incongruence(threshold=thr)
-            ctx.counters.inc("incongruence_checked")
-            if want:
-                ctx.counters.inc("incongruence_%d" % want)
-                ctx.counters.inc("chains_disagree")
-            if gotf != want:
-                # what the flag would be if 'ploidy' were the number of distinct haplotypes in the first qualifying chain's support
-                alleles = set()
-                for s_ in sups:
-                    alleles |= set(s_)
-                alt = 0 if len(set(sups)) <= 1 else (2 if len(alleles) > len(sups[0]) else 1)
-                fail(ctx, "incongruence_flag",
-                     "assemble replicate_incongruence=%r, documented functional of the per-chain empirical distributions gives %r (ploidy %d, %d distinct haplotypes over qualifying chains)" % (gotf, want, pl, len(alleles)),
-                     kind="assemble", got=gotf, expected=want, burn=burn, ploidy=pl, supports=[list(s_) for s_ in sups],
-                     explained_by=("ploidy_taken_as_distinct_haplotypes_of_first_chain" if gotf == alt else None))
+        judge_assemble_incongruence(ctx, lambda thr_: tb.replicate_incongruence(threshold=thr_), chains, burn, support_of, pl, cfg["threshold"])
         ctx.counters.inc("summaries_checked")
         if len(dist) > 1:
             ctx.key("assemble", pl, cfg["chains"], burn, tuple(sorted(dist.items())))
